@@ -662,3 +662,31 @@ Proof.
                 (lenN (free_units pr (used s1))) = true) by (apply N.leb_le; exact Hfit).
   rewrite E. reflexivity.
 Qed.
+
+(* ---------- acceptance under the first-fit contiguous policy (Pascal) ---------- *)
+Lemma find_exists {A} (f : A -> bool) l x : In x l -> f x = true -> exists y, find f l = Some y.
+Proof.
+  induction l as [|a r IH]; intros Hin Hf; [contradiction|]. cbn [find].
+  destruct (f a) eqn:E; [eexists; reflexivity|]. destruct Hin as [->|Hin]; [congruence|]. apply IH; assumption.
+Qed.
+
+(* first-fit contiguous policy (Pascal): a file is accepted as soon as SOME run of free units of the needed length exists,
+   wherever it lies, provided a directory slot exists *)
+Theorem accept_contiguous pr s p idx :
+  p_contig pr = true -> p <> [] -> idx <> [] -> dir_exists s (parent p) = true -> lookup (files s) p = None ->
+  (p_holes pr = true \/ dense (norm_idx (if p_force0 pr then 0 :: idx else idx)) = true) ->
+  forall s1, ensure_slot pr s (parent p) (entries_of pr (norm_idx (if p_force0 pr then 0 :: idx else idx))) = Some s1 ->
+  (exists b, In b (all_units pr) /\
+     run_from pr (used s1) b (N.to_nat (lenN (norm_idx (if p_force0 pr then 0 :: idx else idx)) + meta_units pr (norm_idx (if p_force0 pr then 0 :: idx else idx)))) = true) ->
+  snd (step pr s (Put p idx)) = Accepted.
+Proof.
+  intros Hc Hp Hi Hd Hl Hh s1 Hs (b & Hb & Hrun). cbn [step].
+  destruct p as [|x p']; [congruence|]. destruct idx as [|i idx']; [congruence|].
+  rewrite Hd. cbn [negb]. rewrite Hl.
+  assert (Hh2 : andb (negb (p_holes pr)) (negb (dense (norm_idx (if p_force0 pr then 0 :: i :: idx' else i :: idx')))) = false).
+  { destruct Hh as [-> | ->]; [reflexivity | apply andb_false_r]. }
+  rewrite Hh2, Hs. unfold pick. rewrite Hc. unfold pick_contig.
+  set (need := lenN (norm_idx (if p_force0 pr then 0 :: i :: idx' else i :: idx')) + meta_units pr (norm_idx (if p_force0 pr then 0 :: i :: idx' else i :: idx'))) in *.
+  destruct (find_exists (fun b0 => run_from pr (used s1) b0 (N.to_nat need)) (all_units pr) b Hb Hrun) as (y & Ey).
+  rewrite Ey. reflexivity.
+Qed.
